@@ -40,7 +40,7 @@ def run(ctx, rep):
     a = run_rule(ctx, rep, "ALLOCGUARD", S.alloc_sinks, allow)
     l = run_rule(ctx, rep, "LOOPGROW", S.loopgrow_sinks, allow)
     check_controls(rep, "ALLOCGUARD", a,
-                   ["alloc_bad", "alloc_bigconst_bad", "alloc_lower_bad",
+                   ["alloc_bad", "alloc_bigconst_bad", "alloc_lower_bad", "alloc_signed_view_bad",
                     "alloc_summary_bad", "alloc_new_bad", "alloc_wrap_bad"],
                    ["alloc_ok", "alloc_helper_ok", "alloc_wide_ok"])
     check_controls(rep, "LOOPGROW", l, ["loop_bad"], ["loop_ok"])
